@@ -159,6 +159,59 @@ func runC20(r *Run) {
 			r.Bad("R1", inst, P.Pos(instrPos(in)), "consensus-reachable code writes process-local memory ("+kind+" into "+strings.TrimPrefix(what, haqqMod+"/")+"): the value lives only in this process, so a node restarted between blocks (or a second replica) continues with different in-memory state", sc.S.Chain(fn)...)
 		})
 	}
+	// concurrent/caching containers held by process-local structs: mutating method calls
+	for _, fn := range sc.S.HaqqFuncs() {
+		if isTestSupport(P, fn) || isGeneratedFile(P.FileOf(fnPos(fn))) {
+			continue
+		}
+		eachCall(fn, func(ci CallInfo) {
+			isContainer := ci.PkgPath == "sync" || ci.PkgPath == "sync/atomic" || strings.HasPrefix(ci.PkgPath, "container/") || strings.Contains(ci.PkgPath, "golang-lru") || strings.Contains(ci.PkgPath, "/cache")
+			if !isContainer {
+				return
+			}
+			switch {
+			case ci.Recv == "Map" || ci.Recv == "Value" || ci.Recv == "Cache" || ci.Recv == "List" || strings.HasPrefix(ci.Recv, "Int") || strings.HasPrefix(ci.Recv, "Uint") || ci.Recv == "Pointer" || ci.Recv == "Bool":
+				switch ci.Name {
+				case "Store", "LoadOrStore", "LoadAndDelete", "Delete", "Swap", "CompareAndSwap", "CompareAndDelete", "Add", "Set", "Put", "Remove", "PushBack", "PushFront", "Purge", "ContainsOrAdd":
+				default:
+					return
+				}
+			case ci.Recv == "" && ci.PkgPath == "sync/atomic" && (strings.HasPrefix(ci.Name, "Add") || strings.HasPrefix(ci.Name, "Store") || strings.HasPrefix(ci.Name, "Swap") || strings.HasPrefix(ci.Name, "CompareAndSwap")):
+			default:
+				return
+			}
+			args := callArgs(ci.Instr)
+			if len(args) == 0 {
+				return
+			}
+			what, shared := sharedTarget(args[0])
+			if !shared {
+				// receiver loaded from a field of a process-local struct
+				backSlice(args[0]).Any(func(v ssa.Value) bool {
+					if fa, ok := v.(*ssa.FieldAddr); ok && isProcessLocalType(fa.X.Type()) {
+						sn, f, _ := fieldOfAddr(fa)
+						what, shared = namedPkgPath(fa.X.Type())+"."+sn+"."+f, true
+					}
+					if fv, ok := v.(*ssa.Field); ok && isProcessLocalType(fv.X.Type()) {
+						sn, f, _ := fieldOfValue(fv)
+						what, shared = namedPkgPath(fv.X.Type())+"."+sn+"."+f, true
+					}
+					return false
+				})
+			}
+			if !shared {
+				return
+			}
+			n++
+			inst := fmt.Sprintf("%s#%s.%s-on-%s", fnID(fn), ci.Recv, ci.Name, strings.TrimPrefix(what, haqqMod+"/"))
+			if strings.Contains(what, "/app.tpsCounter") || strings.HasSuffix(what, "app.Haqq.tpsCounter") {
+				r.OK("R1", inst, P.Pos(instrPos(ci.Instr)), "tabled observer: TPS counters are write-only in consensus code (C01 R5) and only logged")
+				return
+			}
+			bad++
+			r.Bad("R1", inst, P.Pos(instrPos(ci.Instr)), "consensus-reachable code mutates an in-memory container ("+ci.Recv+"."+ci.Name+") held by "+strings.TrimPrefix(what, haqqMod+"/")+": a process-local cache that a restarted node or a second replica does not share", sc.S.Chain(fn)...)
+		})
+	}
 	r.Floor("R1", "writes to process-local memory in consensus scope", n, 1)
 	if bad == 0 {
 		r.OK("R1", "scope-S", "", fmt.Sprintf("%d write(s) to process-local memory in consensus scope, all tabled", n))
